@@ -85,7 +85,9 @@ def run_history(res, stack, cfg, hist, label):
             # ---- noreply actually in force
             if name in ("cas", "incr", "decr"):
                 nr = True if nr_flag else False
-                kw = {"noreply": nr}
+                # these three wait for the reply unless told otherwise, whatever default_noreply says:
+                # half of the time rely on that documented default instead of passing noreply=False
+                kw = {"noreply": nr} if (nr or (i + len(hist)) % 2 == 0) else {}
             elif name in ("set", "add", "replace", "append", "prepend", "touch", "delete", "delete_many", "set_many", "flush_all"):
                 if nr_flag:
                     nr, kw = True, {"noreply": True}
